@@ -230,3 +230,525 @@ Proof.
     destruct (bind_full Const ps uargs ukws) as [vals|p]; [|discriminate].
     inversion H; subst. auto.
 Qed.
+
+(* ---------- the method-call path ---------- *)
+
+Section MethodCall.
+  Variable W : world.
+  Hypothesis Hwf : wf_sigs W.
+  Let ct := w_ct W.
+  Variable G : tenv.
+
+  (* an annotated argument: if the follower may enter it as an operator lambda, what it returns is normalised *)
+  Definition nlam_ok (a : aarg) : Prop :=
+    match snd a with
+    | NLam p k => exists b, fst a = Lambda [p] b /\
+                            forall item b' t ev, k item = Ok (b', t, ev) -> norm W ((p, item) :: G) b b'
+    | _ => True
+    end.
+
+  Variable a : string.
+  Variable f' : expr.
+  Variable args : list aarg.
+  Variable kws : list (option string * aarg).
+  Variable cands0 : list ty.
+
+  Definition node_of (args2 : list aarg) (kws2 : list (option string * aarg)) : expr :=
+    Call f' (map aexpr args2) (map fst kws2) (map (fun kv => aexpr (snd kv)) kws2).
+
+  Inductive res_ok : mres -> Prop :=
+   | res_static r bo mcls m args2 kws2 :
+       In bo cands0 -> get_method_and_class ct bo a = Some (mcls, MMethod m) -> mr_obj r = Some (bo, m) ->
+       fill mk_const_arg (m_params m) args kws = inl (args2, kws2) ->
+       mr_node r = node_of args2 kws2 -> res_ok r
+   | res_stream r c item targs mcls m x kws2 p k b' t ev :
+       In (TCls c (item :: targs)) cands0 -> is_collection ct c = true ->
+       get_method_and_class ct (TCls c (item :: targs)) a = Some (mcls, MMethod m) ->
+       mr_obj r = Some (TCls c (item :: targs), m) ->
+       fill mk_const_arg (m_params m) args kws = inl ([x], kws2) ->
+       snd x = NLam p k -> k item = Ok (b', t, ev) -> own_operator (m_op m) ->
+       mr_node r = Call f' [Lambda [p] b'] (map fst kws2) (map (fun kv => aexpr (snd kv)) kws2) ->
+       res_ok r.
+
+  Lemma stream_obj_ok bo mcls m args2 kws2 r :
+    In bo cands0 -> get_method_and_class ct bo a = Some (mcls, MMethod m) ->
+    fill mk_const_arg (m_params m) args kws = inl (args2, kws2) ->
+    follow_on_stream_obj W bo m f' args2 kws2 = Ok (Some r) -> res_ok r.
+  Proof.
+    intros Hin Hm Hf H. unfold follow_on_stream_obj in H.
+    destruct bo as [| | | | | | | | | | | |c targs| |]; try discriminate.
+    destruct (is_collection (w_ct W) c) eqn:Ec; [|discriminate].
+    destruct targs as [|item targs]; [discriminate|].
+    destruct args2 as [|x [|y rest]]; [| |discriminate].
+    - inversion H; subst. eapply res_static; eauto.
+    - assert (Hop : own_operator (m_op m) /\
+                    exists p k, snd x = NLam p k /\
+                      bind (k item) (fun r0 => bind (finish_op W (m_op m) item p r0) (fun '(lam, t, ev) =>
+                        Ok (Some {| mr_node := Call f' [lam] (map fst kws2) (map (fun kv => aexpr (snd kv)) kws2);
+                                    mr_ty := TIter t; mr_full := true; mr_obj := Some (TCls c (item :: targs), m);
+                                    mr_ev := ev |}))) = Ok (Some r)).
+      { unfold own_operator. destruct (m_op m); try discriminate;
+          (split; [tauto|]); destruct (snd x) as [| |p k]; try discriminate; eauto. }
+      destruct Hop as (Hop & p & k & Hx & Hb).
+      apply bind_ok in Hb. destruct Hb as ([[b' t] ev] & Hk & Hb).
+      apply bind_ok in Hb. destruct Hb as ([[lam t'] ev'] & Hfin & Hb).
+      assert (lam = Lambda [p] b').
+      { unfold finish_op in Hfin. destruct (negb (check_ast (Lambda [p] b'))); [discriminate|].
+        destruct (m_op m); try discriminate; try (inversion Hfin; reflexivity).
+        destruct (ty_eqb t TBool); inversion Hfin; reflexivity. }
+      subst lam. inversion Hb; subst. eapply res_stream; eauto.
+  Qed.
+
+  Lemma loop_ok cands : forall last r,
+    incl cands cands0 -> (forall r0, last = Some r0 -> res_ok r0) ->
+    method_loop W cands a f' args kws last = Ok (Some r) -> res_ok r.
+  Proof.
+    induction cands as [|bo rest IH]; intros last r Hincl Hlast H; cbn [method_loop] in H.
+    - inversion H; subst. apply Hlast. reflexivity.
+    - assert (Hin : In bo cands0) by (apply Hincl; left; reflexivity).
+      assert (Hincl' : incl rest cands0) by (intros x Hx; apply Hincl; right; exact Hx).
+      fold ct in H.
+      destruct (get_method_and_class ct bo a) as [[mcls [m|pc]]|] eqn:Em; [| discriminate | eapply IH; eauto].
+      destruct (fill mk_const_arg (m_params m) args kws) as [[args2 kws2]|pn] eqn:Ef; [|discriminate].
+      set (ret := resolve_type_vars ct (match m_ret m with Some t => t | None => TAny end) bo mcls) in *.
+      set (node2 := Call f' (map aexpr args2) (map fst kws2) (map (fun kv => aexpr (snd kv)) kws2)) in *.
+      set (last1 := match ret with
+                    | Some t => Some {| mr_node := node2; mr_ty := t;
+                                        mr_full := negb (existsb (fun x => is_lambda (aexpr x)) args2);
+                                        mr_obj := Some (bo, m); mr_ev := [] |}
+                    | None => last end) in *.
+      assert (Hlast1 : forall r0, last1 = Some r0 -> res_ok r0).
+      { unfold last1. destruct ret; [|exact Hlast]. intros r0 E. inversion E; subst.
+        eapply res_static; eauto. }
+      apply bind_ok in H. destruct H as (fr & Hfr & H).
+      assert (Hlast2 : forall r0, match fr with Some r1 => Some r1 | None => last1 end = Some r0 -> res_ok r0).
+      { destruct fr as [r1|]; [|exact Hlast1]. intros r0 E. inversion E; subst.
+        destruct (match last1 with None => true | Some r2 => negb (mr_full r2) end); [|discriminate].
+        eapply stream_obj_ok; eauto. }
+      destruct (match fr with Some r1 => Some r1 | None => last1 end) as [r2|] eqn:E2.
+      + destruct (mr_full r2).
+        * inversion H; subst. apply Hlast2. reflexivity.
+        * eapply IH; eauto.
+      + eapply IH; eauto.
+  Qed.
+
+  (* once there is a result there always is one *)
+  Lemma loop_some cands : forall r0,
+    method_loop W cands a f' args kws (Some r0) = Ok None -> False.
+  Proof.
+    induction cands as [|bo rest IH]; intros r0 H; cbn [method_loop] in H; [discriminate|].
+    destruct (get_method_and_class (w_ct W) bo a) as [[mcls [m|pc]]|]; [| discriminate | eapply IH; eauto].
+    destruct (fill mk_const_arg (m_params m) args kws) as [[args2 kws2]|pn]; [|discriminate].
+    apply bind_ok in H. destruct H as (fr & _ & H).
+    destruct fr as [r1|].
+    - destruct (mr_full r1); [discriminate | eapply IH; eauto].
+    - destruct (resolve_type_vars (w_ct W) _ bo mcls).
+      + cbn in H. destruct (negb (existsb (fun x => is_lambda (aexpr x)) args2)); [discriminate | eapply IH; eauto].
+      + destruct (mr_full r0); [discriminate | eapply IH; eauto].
+  Qed.
+
+  Lemma loop_known cands last bo mcls m t :
+    In bo cands -> get_method_and_class ct bo a = Some (mcls, MMethod m) ->
+    resolve_type_vars ct (match m_ret m with Some r => r | None => TAny end) bo mcls = Some t ->
+    method_loop W cands a f' args kws last = Ok None -> False.
+  Proof.
+    revert last. induction cands as [|bo' rest IH]; intros last Hin Hm Hr H; [contradiction|].
+    cbn [method_loop] in H. fold ct in H. destruct Hin as [->|Hin].
+    - rewrite Hm in H.
+      destruct (fill mk_const_arg (m_params m) args kws) as [[args2 kws2]|pn]; [|discriminate].
+      rewrite Hr in H. apply bind_ok in H. destruct H as (fr & _ & H).
+      destruct fr as [r1|].
+      + destruct (mr_full r1); [discriminate | eapply loop_some; eauto].
+      + cbn in H. destruct (negb (existsb (fun x => is_lambda (aexpr x)) args2)); [discriminate | eapply loop_some; eauto].
+    - destruct (get_method_and_class ct bo' a) as [[mcls' [m'|pc]]|]; [| discriminate | eapply IH; eauto].
+      destruct (fill mk_const_arg (m_params m') args kws) as [[args2 kws2]|pn]; [|discriminate].
+      apply bind_ok in H. destruct H as (fr & _ & H).
+      destruct (match fr with Some r1 => Some r1 | None => _ end) as [r2|].
+      + destruct (mr_full r2); [discriminate | eapply IH; eauto].
+      + eapply IH; eauto.
+  Qed.
+End MethodCall.
+
+(* ---------- the theorem ---------- *)
+
+Section Main.
+  Variable W : world.
+  Hypothesis Hwf : wf_sigs W.
+  Let ct := w_ct W.
+
+  Definition Q (e : expr) : Prop :=
+    forall G e' t aux ev, follow_x W G e = Ok (e', t, aux, ev) -> norm W G e e'.
+
+  (* induction hypotheses for the sub-terms the follower looks through *)
+  Definition sub (e : expr) : Prop :=
+    match e with
+    | Lambda _ b => Q b
+    | Attr v _ => Q v
+    | Subscript v s => Q s /\ match v with Attr u _ => Q u | _ => True end
+    | _ => True
+    end.
+  Definition P (e : expr) : Prop := Q e /\ sub e.
+
+  Lemma fl_norm G es : Forall P es -> forall es' ts ev,
+    follow_list_with (follow_x W G) es = Ok (es', ts, ev) -> Forall2 (norm W G) es es'.
+  Proof.
+    induction 1 as [|x xs Hx _ IH]; intros es' ts ev H.
+    - cbn in H. inversion H; subst. constructor.
+    - rewrite fl_cons in H. apply bind_ok in H. destruct H as ([[[x' t] aux] ev1] & H1 & H).
+      apply bind_ok in H. destruct H as ([[xs' ts'] evs] & H2 & H). inversion H; subst.
+      constructor; [eapply (proj1 Hx); eauto | eapply IH; eauto].
+  Qed.
+
+  Lemma fl_length G es es' ts ev :
+    follow_list_with (follow_x W G) es = Ok (es', ts, ev) -> length es' = length es.
+  Proof.
+    revert es' ts ev. induction es as [|x xs IH]; intros es' ts ev H.
+    - cbn in H. inversion H; reflexivity.
+    - rewrite fl_cons in H. apply bind_ok in H. destruct H as ([[[x' t] aux] ev1] & H1 & H).
+      apply bind_ok in H. destruct H as ([[xs' ts'] evs] & H2 & H). inversion H; subst. cbn. f_equal. eauto.
+  Qed.
+
+  Lemma nl_ok G es : Forall P es -> forall es' ts ev,
+    follow_list_with (follow_x W G) es = Ok (es', ts, ev) ->
+    Forall (nlam_ok W G) (nested_args_with (follow_x W) G es es').
+  Proof.
+    induction 1 as [|x xs Hx _ IH]; intros es' ts ev H.
+    - cbn in H. inversion H; subst. constructor.
+    - rewrite fl_cons in H. apply bind_ok in H. destruct H as ([[[x' t] aux] ev1] & H1 & H).
+      apply bind_ok in H. destruct H as ([[xs' ts'] evs] & H2 & H). inversion H; subst.
+      cbn [nested_args_with]. constructor; [|eapply IH; eauto].
+      unfold nlam_ok. cbn [snd fst].
+      destruct x; try exact I. destruct ps as [|p [|q r]]; try exact I.
+      rewrite fx_Lambda in H1. inversion H1; subst. exists x. split; [reflexivity|].
+      intros item b' t0 ev0 Hk. apply bind_ok in Hk. destruct Hk as ([[[b1 t1] aux1] ev2] & Hb & Hk).
+      inversion Hk; subst. destruct Hx as [_ Hsub]. cbn in Hsub. eapply Hsub; eauto.
+  Qed.
+
+  Lemma follow_of_fx G e e' t aux ev : follow_x W G e = Ok (e', t, aux, ev) -> follow W G e = Ok (e', t, ev).
+  Proof. intros H. unfold follow. rewrite H. reflexivity. Qed.
+
+  (* process_method_call, read against the relation *)
+  Lemma pmc_norm G v v' tv ev0 a args args' kwn kwv kwv' aargs akwv out t ev :
+    norm W G v v' -> follow W G v = Ok (v', tv, ev0) ->
+    Forall2 (norm W G) args args' -> Forall2 (norm W G) kwv kwv' ->
+    map aexpr aargs = args' -> map aexpr akwv = kwv' ->
+    Forall (nlam_ok W G) aargs -> Forall (nlam_ok W G) akwv ->
+    process_method_call W v' tv a aargs kwn akwv = Ok (out, t, ev) ->
+    norm W G (Call (Attr v a) args kwn kwv) out.
+  Proof.
+    intros Hv Hfv Ha Hk Ea Ek Hna Hnk H. unfold process_method_call in H.
+    apply bind_ok in H. destruct H as (best & Hloop & H).
+    assert (Hkws : map (hk aexpr) (zip_kw kwn akwv) = zipk kwn kwv').
+    { rewrite zip_kw_combine. unfold hk, zipk. rewrite combine_map_snd. rewrite Ek. reflexivity. }
+    assert (Hnkws : Forall (fun kv => nlam_ok W G (snd kv)) (zip_kw kwn akwv)).
+    { clear -Hnk. revert kwn. induction Hnk as [|x xs Hx _ IH]; intros [|k ks]; cbn; constructor; auto. }
+    destruct best as [r|].
+    - pose proof (loop_ok W a (Attr v' a) aargs (zip_kw kwn akwv) (candidates W tv) (candidates W tv) None r
+                          (incl_refl _) (fun r0 E => match E with end) ) as Hok.
+      assert (Hres : res_ok W a (Attr v' a) aargs (zip_kw kwn akwv) (candidates W tv) r).
+      { eapply loop_ok; [apply incl_refl | | exact Hloop]. intros r0 E. discriminate. }
+      clear Hok.
+      assert (Hout : exists bo m, mr_obj r = Some (bo, m) /\ rewritten (mr_node r) out).
+      { inversion Hres as [r' bo mcls m args2 kws2 _ _ Ho _ _ | r' c item targs mcls m x kws2 p k b' t' ev' _ _ _ Ho _ _ _ _ _];
+          subst; rewrite Ho in H;
+          match type of H with context [method_callbacks W ?b ?mm ?n] =>
+            pose proof (method_callbacks_rewritten W b mm n) as Hrw;
+            destruct (method_callbacks W b mm n) as [site evs] end;
+          inversion H; subst; eauto. }
+      destruct Hout as (bo0 & m0 & Ho0 & Hrw).
+      inversion Hres as [r' bo mcls m args2 kws2 Hin Hm Ho Hf Hn | r' c item targs mcls m x kws2 p k b' t' ev' Hin Hc Hm Ho Hf Hx Hkk Hop Hn]; subst.
+      + (* filled from the signature *)
+        pose proof (fill_map aexpr mk_const_arg Const (fun c => eq_refl) _ _ _ _ _ Hf) as Hf'.
+        rewrite Hkws in Hf'.
+        eapply norm_method_typed; eauto.
+        rewrite Hn. unfold node_of.
+        pose proof (fill_complete (m_params m) (Attr v' a) _ _ _ _ (gmc_sig W bo a mcls m Hwf Hm) Hf') as Hc.
+        unfold hk in Hc. rewrite !map_map in Hc. cbn [fst snd] in Hc. exact Hc.
+      + (* a stream operator with its lambda *)
+        pose proof (fill_map aexpr mk_const_arg Const (fun c => eq_refl) _ _ _ _ _ Hf) as Hf'.
+        rewrite Hkws in Hf'.
+        assert (Hxok : nlam_ok W G x).
+        { destruct (fill_go_Forall mk_const_arg (nlam_ok W G) (m_params m) (fun c => I) 0 aargs (zip_kw kwn akwv) [x] kws2 Hna Hnkws Hf) as [Hx1 _].
+          inversion Hx1; assumption. }
+        unfold nlam_ok in Hxok. rewrite Hx in Hxok. destruct Hxok as (b & Hfst & Hbody).
+        cbn [map] in Hf'. change (aexpr x) with (fst x) in Hf'. rewrite Hfst in Hf'.
+        eapply norm_method_operator; eauto.
+        rewrite Hn in Hrw. unfold hk. rewrite !map_map. cbn [fst snd]. exact Hrw.
+    - (* no result: only when the method is not known *)
+      inversion H; subst. eapply norm_method_unknown; eauto.
+      intros (bo & mcls & m & t0 & Hin & Hm & Hr).
+      eapply loop_known; eauto.
+  Qed.
+
+  Lemma rewritten_is_call s out : rewritten s out -> is_call s = true -> is_call out = true.
+  Proof.
+    induction 1 as [|s s1 rw _ IH]; intros Hc; [exact Hc|]. specialize (IH Hc).
+    destruct rw; cbn; [exact IH | | reflexivity].
+    destruct s1; try discriminate. cbn.
+    match goal with |- context [match ?f with _ => _ end] => destruct f end; reflexivity.
+  Qed.
+
+  Lemma pmc_is_call v' tv a aargs kwn akwv out t ev :
+    process_method_call W v' tv a aargs kwn akwv = Ok (out, t, ev) -> is_call out = true.
+  Proof.
+    intros H. unfold process_method_call in H. apply bind_ok in H. destruct H as (best & Hloop & H).
+    destruct best as [r|]; [|inversion H; reflexivity].
+    assert (Hres : res_ok W a (Attr v' a) aargs (zip_kw kwn akwv) (candidates W tv) r).
+    { eapply loop_ok; [apply incl_refl | | exact Hloop]. intros r0 E. discriminate. }
+    assert (Hn : is_call (mr_node r) = true) by (inversion Hres; subst; match goal with Hx : mr_node _ = _ |- _ => rewrite Hx end; reflexivity).
+    destruct (mr_obj r) as [[bo m]|].
+    - pose proof (method_callbacks_rewritten W bo m (mr_node r)) as Hrw.
+      destruct (method_callbacks W bo m (mr_node r)) as [site evs]. inversion H; subst.
+      eapply rewritten_is_call; eauto.
+    - inversion H; subst. exact Hn.
+  Qed.
+
+  Ltac inv_bind H x H1 :=
+    apply bind_ok in H; destruct H as (x & H1 & H).
+
+  Ltac crush1 H :=
+    let y := fresh "y" in let Hy := fresh "Hy" in
+    apply bind_ok in H; destruct H as (y & Hy & H);
+    try (first [destruct y as [[[? ?] ?] ?] | destruct y as [[? ?] ?]]); cbv beta iota in H.
+  Ltac crush H := repeat crush1 H.
+
+  (* the visited callee is a name only if the callee is that name *)
+  Lemma fx_is_name G e e' t aux ev x :
+    follow_x W G e = Ok (e', t, aux, ev) -> e' = Name x -> e = Name x.
+  Proof.
+    intros H ->. destruct e.
+    - rewrite fx_Name in H. inversion H; reflexivity.
+    - rewrite fx_Const in H. inversion H.
+    - rewrite fx_Attr in H. crush H. inversion H.
+    - exfalso.
+      assert (Hcases : (exists v a, e = Attr v a) \/ (exists v a s, e = Subscript (Attr v a) s) \/ plain_callee e).
+      { destruct e; try (right; right; exact I); try (left; eauto; fail).
+        match goal with |- context [plain_callee (Subscript ?x ?y)] => destruct x end;
+          try (right; right; exact I).
+        right; left; eauto. }
+      destruct Hcases as [(v & a & ->)|[(v & a & s & ->)|Hplain]].
+      + rewrite fx_Call_method in H. crush H. inversion H; subst.
+        match goal with Hp : process_method_call _ _ _ _ _ _ _ = _ |- _ => apply pmc_is_call in Hp; discriminate end.
+      + rewrite fx_Call_param in H. crush H.
+        destruct (is_any _ && param_call_guarded); [inversion H|].
+        crush H. inversion H; subst.
+        match goal with Hp : process_parameterized _ _ _ _ _ _ _ _ = _ |- _ => unfold process_parameterized in Hp;
+          destruct (get_method_and_class _ _ _) as [[? [?|[?|]]]|]; try discriminate;
+          destruct (literal_eval _); try discriminate; inversion Hp as [[Hn Ht He]] end.
+        destruct (cb_rw _); discriminate.
+      + rewrite fx_Call_plain in H by exact Hplain. crush H.
+        match type of H with context [match ?f with _ => _ end] => destruct f end; try (inversion H; fail).
+        destruct (find_func (w_ft W) id) as [fn|]; [|inversion H].
+        crush H. inversion H; subst.
+        match goal with Hp : process_function_call _ _ _ _ _ = _ |- _ => unfold process_function_call in Hp;
+          destruct (fill Const _ _ _) as [[? ?]|]; try discriminate;
+          destruct (f_proc fn) as [id'|]; cbn in Hp; inversion Hp as [[Hn Ht He]] end.
+        destruct (cb_rw _); discriminate.
+    - rewrite fx_Lambda in H. inversion H.
+    - rewrite fx_UnaryOp in H. crush H. destruct (unary_uses_lookup || _); inversion H.
+    - rewrite fx_BinOp in H. crush H. inversion H.
+    - rewrite fx_BoolOp in H. crush H. inversion H.
+    - rewrite fx_Compare in H. crush H. inversion H.
+    - rewrite fx_IfExp in H. crush H. inversion H.
+    - rewrite fx_Tuple in H. crush H. inversion H.
+    - rewrite fx_List in H. crush H. inversion H.
+    - rewrite fx_Dict in H. crush H. inversion H.
+    - rewrite fx_Subscript in H. crush H. inversion H.
+    - rewrite fx_ListComp in H. crush H. inversion H.
+    - rewrite fx_GenExp in H. crush H. inversion H.
+    - rewrite fx_CompFor in H. crush H. inversion H.
+    - rewrite fx_Raw in H. inversion H.
+    - rewrite fx_Other in H. crush H. inversion H.
+  Qed.
+
+  (* congruence, node class by node class *)
+  Section Cong.
+    Variable G : tenv.
+    Notation N := (norm W G).
+    Lemma nc_Attr v v' a : N v v' -> N (Attr v a) (Attr v' a).
+    Proof. intros. apply (norm_cong W G (Attr v a) [v']); try reflexivity. cbn. auto. Qed.
+    Lemma nc_UnaryOp o x x' : N x x' -> N (UnaryOp o x) (UnaryOp o x').
+    Proof. intros. apply (norm_cong W G (UnaryOp o x) [x']); try reflexivity. cbn. auto. Qed.
+    Lemma nc_BinOp o l r l' r' : N l l' -> N r r' -> N (BinOp o l r) (BinOp o l' r').
+    Proof. intros. apply (norm_cong W G (BinOp o l r) [l'; r']); try reflexivity. cbn. auto. Qed.
+    Lemma nc_BoolOp o es es' : Forall2 N es es' -> N (BoolOp o es) (BoolOp o es').
+    Proof. intros. apply (norm_cong W G (BoolOp o es) es'); try reflexivity. cbn. auto. Qed.
+    Lemma nc_Compare l ops rs l' rs' : N l l' -> Forall2 N rs rs' -> N (Compare l ops rs) (Compare l' ops rs').
+    Proof. intros. apply (norm_cong W G (Compare l ops rs) (l' :: rs')); try reflexivity. cbn. auto. Qed.
+    Lemma nc_IfExp c t f c' t' f' : N c c' -> N t t' -> N f f' -> N (IfExp c t f) (IfExp c' t' f').
+    Proof. intros. apply (norm_cong W G (IfExp c t f) [c'; t'; f']); try reflexivity. cbn. auto. Qed.
+    Lemma nc_Tuple es es' : Forall2 N es es' -> N (Tuple es) (Tuple es').
+    Proof. intros. apply (norm_cong W G (Tuple es) es'); try reflexivity. cbn. auto. Qed.
+    Lemma nc_List es es' : Forall2 N es es' -> N (List es) (List es').
+    Proof. intros. apply (norm_cong W G (List es) es'); try reflexivity. cbn. auto. Qed.
+    Lemma nc_Dict ks vs ks' vs' : Forall2 N ks ks' -> Forall2 N vs vs' -> N (Dict ks vs) (Dict ks' vs').
+    Proof.
+      intros Hk Hv. pose proof (Forall2_length' _ _ _ Hk) as Hl.
+      replace (Dict ks' vs') with (rebuild (Dict ks vs) (ks' ++ vs')).
+      - apply norm_cong; try reflexivity. cbn. apply Forall2_app; assumption.
+      - cbn. rewrite <- Hl. rewrite firstn_app_len, skipn_app_len by reflexivity. reflexivity.
+    Qed.
+    Lemma nc_Subscript v s v' s' : N v v' -> N s s' -> N (Subscript v s) (Subscript v' s').
+    Proof. intros. apply (norm_cong W G (Subscript v s) [v'; s']); try reflexivity. cbn. auto. Qed.
+    Lemma nc_ListComp x gs x' gs' : N x x' -> Forall2 N gs gs' -> N (ListComp x gs) (ListComp x' gs').
+    Proof. intros. apply (norm_cong W G (ListComp x gs) (x' :: gs')); try reflexivity. cbn. auto. Qed.
+    Lemma nc_GenExp x gs x' gs' : N x x' -> Forall2 N gs gs' -> N (GenExp x gs) (GenExp x' gs').
+    Proof. intros. apply (norm_cong W G (GenExp x gs) (x' :: gs')); try reflexivity. cbn. auto. Qed.
+    Lemma nc_CompFor t i ifs a t' i' ifs' :
+      N t t' -> N i i' -> Forall2 N ifs ifs' -> N (CompFor t i ifs a) (CompFor t' i' ifs' a).
+    Proof. intros. apply (norm_cong W G (CompFor t i ifs a) (t' :: i' :: ifs')); try reflexivity. cbn. auto. Qed.
+    Lemma nc_Other cls ats cs cs' : Forall2 N cs cs' -> N (Other cls ats cs) (Other cls ats cs').
+    Proof. intros. apply (norm_cong W G (Other cls ats cs) cs'); try reflexivity. cbn. auto. Qed.
+  End Cong.
+
+  Theorem follow_norm : forall e, P e.
+  Proof.
+    induction e using expr_ind'; (split; [intros G e' t aux ev HE | try exact I]).
+    - (* Name *) rewrite fx_Name in HE. inversion HE; subst. apply norm_leaf; reflexivity.
+    - (* Const *) rewrite fx_Const in HE. inversion HE; subst. apply norm_leaf; reflexivity.
+    - (* Attr *)
+      rewrite fx_Attr in HE. crush HE. inversion HE; subst.
+      apply nc_Attr. eapply (proj1 IHe); eauto.
+    - cbn. apply IHe.
+    - (* Call *)
+      assert (Hcases : (exists v a, e = Attr v a) \/ (exists v a s, e = Subscript (Attr v a) s) \/ plain_callee e).
+      { destruct e; try (right; right; exact I); try (left; eauto; fail).
+        match goal with |- context [plain_callee (Subscript ?x ?y)] => destruct x end;
+          try (right; right; exact I).
+        right; left; eauto. }
+      destruct Hcases as [(v & a & ->)|[(v & a & s & ->)|Hplain]].
+      + rewrite fx_Call_method in HE.
+        inv_bind HE x Hv. destruct x as [[[v' tv] auxv] ev0].
+        inv_bind HE ta Hat. inv_bind HE x Hargs. destruct x as [[args' ts1] ev1].
+        inv_bind HE x Hkwv. destruct x as [[kwv' ts2] ev2].
+        inv_bind HE x Hp. destruct x as [[node tn] ev3]. inversion HE; subst.
+        destruct IHe as [_ Hsub]. cbn in Hsub.
+        eapply pmc_norm; try exact Hp.
+        * eapply Hsub; eauto.
+        * eapply follow_of_fx; eauto.
+        * eapply fl_norm; eauto.
+        * eapply fl_norm; eauto.
+        * apply nested_args_exprs. symmetry. eapply fl_length; eauto.
+        * apply nested_args_exprs. symmetry. eapply fl_length; eauto.
+        * eapply nl_ok; eauto.
+        * eapply nl_ok; eauto.
+      + rewrite fx_Call_param in HE.
+        inv_bind HE x Hv. destruct x as [[[v' tv] auxv] ev0].
+        inv_bind HE ta Hat. inv_bind HE x Hs. destruct x as [[[s' ts] auxs] evs].
+        inv_bind HE tsub Hst. inv_bind HE x Hargs. destruct x as [[args' ts1] ev1].
+        inv_bind HE x Hkwv. destruct x as [[kwv' ts2] ev2].
+        destruct IHe as [_ [Hqs Hqv]].
+        pose proof (Hqv _ _ _ _ _ Hv) as Hnv. pose proof (Hqs _ _ _ _ _ Hs) as Hns.
+        pose proof (fl_norm G _ H _ _ _ Hargs) as Hna. pose proof (fl_norm G _ H0 _ _ _ Hkwv) as Hnk.
+        destruct (is_any tv && param_call_guarded).
+        * inversion HE; subst. apply norm_call_untyped; auto.
+          apply nc_Subscript; [apply nc_Attr; exact Hnv | exact Hns].
+        * inv_bind HE x Hp. destruct x as [[node tn] ev3]. inversion HE; subst.
+          eapply norm_call_parameterized; eauto.
+          unfold process_parameterized in Hp.
+          destruct (get_method_and_class (w_ct W) tv a) as [[c0 [m0|[id|]]]|]; try discriminate.
+          destruct (literal_eval s'); [|discriminate]. inversion Hp; subst. econstructor. constructor.
+      + rewrite fx_Call_plain in HE by exact Hplain.
+        inv_bind HE x Hf. destruct x as [[[f' tf] auxf] ev0].
+        inv_bind HE x Hargs. destruct x as [[args' ts1] ev1].
+        inv_bind HE x Hkwv. destruct x as [[kwv' ts2] ev2].
+        pose proof (proj1 IHe _ _ _ _ _ Hf) as Hnf.
+        pose proof (fl_norm G _ H _ _ _ Hargs) as Hna. pose proof (fl_norm G _ H0 _ _ _ Hkwv) as Hnk.
+        pose proof (fx_is_name G e f' tf auxf ev0) as Hname.
+        assert (Hfn : forall x fn, f' = Name x -> find_func (w_ft W) x = Some fn ->
+                        forall node tn ev3, process_function_call W fn args' kwn kwv' = Ok (node, tn, ev3) ->
+                        norm W G (Call e args kwn kwv) node).
+        { intros x fn -> Hff node tn ev3 Hp. rewrite (Hname x Hf eq_refl).
+          unfold process_function_call in Hp. rewrite zfix_combine in Hp.
+          destruct (fill Const (f_params fn) args' (combine kwn kwv')) as [[a2 k2]|pn] eqn:Efill; [|discriminate].
+          pose proof (find_func_name _ _ _ Hff) as Hn. rewrite Hn in Hp.
+          pose proof (run_cb_rewritten W (f_proc fn) (Call (Name x) a2 (map fst k2) (map snd k2))) as Hrw.
+          destruct (run_cb W (f_proc fn) (Call (Name x) a2 (map fst k2) (map snd k2))) as [site evs].
+          inversion Hp; subst. eapply norm_call_function; eauto.
+          apply fill_complete; [|exact Efill].
+          destruct Hwf as [_ Hfs]. rewrite Forall_forall in Hfs. apply Hfs. eapply find_func_In; eauto. }
+        assert (Hun : (match e with Attr _ _ => False | Name x => find_func (w_ft W) x = None | _ => True end) ->
+                      norm W G (Call e args kwn kwv) (Call f' args' kwn kwv')).
+        { intros Hc. apply norm_call_untyped; auto. }
+        destruct f'; try (inversion HE; subst; apply Hun; destruct e; try exact I; try contradiction;
+                          match goal with Hx : follow_x W G (Name ?i) = _ |- _ => rewrite fx_Name in Hx; inversion Hx end; fail).
+        pose proof (Hname id Hf eq_refl) as ->.
+        destruct (find_func (w_ft W) id) as [fn|] eqn:Eff.
+        * inv_bind HE x Hp. destruct x as [[node tn] ev3]. inversion HE; subst. eapply Hfn; eauto.
+        * inversion HE; subst. apply Hun. first [exact Eff | reflexivity].
+    - (* Lambda *) rewrite fx_Lambda in HE. inversion HE; subst. apply norm_leaf; reflexivity.
+    - cbn. apply IHe.
+    - (* UnaryOp *)
+      rewrite fx_UnaryOp in HE. crush HE. destruct (unary_uses_lookup || _); inversion HE; subst.
+      apply nc_UnaryOp. eapply (proj1 IHe); eauto.
+    - (* BinOp *)
+      rewrite fx_BinOp in HE. crush HE. inversion HE; subst.
+      apply nc_BinOp; [eapply (proj1 IHe1); eauto | eapply (proj1 IHe2); eauto].
+    - (* BoolOp *)
+      rewrite fx_BoolOp in HE. crush HE. inversion HE; subst. apply nc_BoolOp. eapply fl_norm; eauto.
+    - (* Compare *)
+      rewrite fx_Compare in HE. crush HE. inversion HE; subst.
+      apply nc_Compare; [eapply (proj1 IHe); eauto | eapply fl_norm; eauto].
+    - (* IfExp *)
+      rewrite fx_IfExp in HE. crush HE. inversion HE; subst.
+      apply nc_IfExp; [eapply (proj1 IHe1); eauto | eapply (proj1 IHe2); eauto | eapply (proj1 IHe3); eauto].
+    - (* Tuple *)
+      rewrite fx_Tuple in HE. crush HE. inversion HE; subst. apply nc_Tuple. eapply fl_norm; eauto.
+    - (* List *)
+      rewrite fx_List in HE. crush HE. inversion HE; subst. apply nc_List. eapply fl_norm; eauto.
+    - (* Dict *)
+      rewrite fx_Dict in HE. crush HE. inversion HE; subst. apply nc_Dict; eapply fl_norm; eauto.
+    - (* Subscript *)
+      rewrite fx_Subscript in HE. crush HE. inversion HE; subst.
+      apply nc_Subscript; [eapply (proj1 IHe1); eauto | eapply (proj1 IHe2); eauto].
+    - cbn. split; [apply IHe2|]. destruct e1; try exact I. apply (proj2 IHe1).
+    - (* ListComp *)
+      rewrite fx_ListComp in HE. crush HE. inversion HE; subst.
+      apply nc_ListComp; [eapply (proj1 IHe); eauto | eapply fl_norm; eauto].
+    - (* GenExp *)
+      rewrite fx_GenExp in HE. crush HE. inversion HE; subst.
+      apply nc_GenExp; [eapply (proj1 IHe); eauto | eapply fl_norm; eauto].
+    - (* CompFor *)
+      rewrite fx_CompFor in HE. crush HE. inversion HE; subst.
+      apply nc_CompFor; [eapply (proj1 IHe1); eauto | eapply (proj1 IHe2); eauto | eapply fl_norm; eauto].
+    - (* Raw *) rewrite fx_Raw in HE. inversion HE; subst. apply norm_leaf; reflexivity.
+    - (* Other *)
+      rewrite fx_Other in HE. crush HE. inversion HE; subst. apply nc_Other. eapply fl_norm; eauto.
+  Qed.
+End Main.
+
+(* ---------- exported statements ---------- *)
+
+Theorem calls_normalised_x W G e e' t ev :
+  wf_sigs W -> follow W G e = Ok (e', t, ev) -> norm W G e e'.
+Proof.
+  intros Hwf H. unfold follow in H. apply bind_ok in H. destruct H as ([[[e1 t1] aux1] ev1] & H1 & H).
+  inversion H; subst. exact (proj1 (follow_norm W Hwf e) G _ _ _ _ H1).
+Qed.
+
+(* through the stream operators themselves: the emitted lambda is the user's lambda with its body normalised
+   under the stream's item type *)
+Theorem stream_calls_normalised_x W op G0 item p b lam t ev :
+  wf_sigs W -> stream_op W op G0 item (Lambda [p] b) = Ok (lam, t, ev) ->
+  exists b', lam = Lambda [p] b' /\ norm W ((p, item) :: G0) b b'.
+Proof.
+  intros Hwf H. cbn [stream_op] in H. apply bind_ok in H. destruct H as ([[b' tb] ev'] & Hf & H).
+  exists b'. split; [|eapply calls_normalised_x; eauto].
+  unfold finish_op in H. destruct (negb (check_ast (Lambda [p] b'))); [discriminate|].
+  destruct op; try discriminate; try (inversion H; reflexivity).
+  destruct (ty_eqb tb TBool); inversion H; reflexivity.
+Qed.
+
+(* what a callback can turn a zero-argument method call into: nothing that is again a zero-argument method call
+   on the same receiver unless the site already was one (used by the negative Example of Properties/C07.v) *)
+Lemma rewritten_to_bare_method s v a :
+  rewritten s (Call (Attr v a) [] [] []) -> exists a0, s = Call (Attr v a0) [] [] [].
+Proof.
+  intros H. remember (Call (Attr v a) [] [] []) as out eqn:E. revert a E.
+  induction H as [|s s1 rw _ IH]; intros a E; [eauto|].
+  destruct rw; cbn in E.
+  - eauto.
+  - destruct s1 as [| | |f args kwn kwv| | | | | | | | | | | | | | |]; try (eapply IH; eauto; fail).
+    destruct f; try (eapply IH; eauto; fail); inversion E; subst; eapply IH; eauto.
+  - discriminate.
+Qed.
